@@ -494,9 +494,74 @@ def r5(F, rep):
 THOROUGH_CONFIGS = ("default", "debug")
 
 
+def upper_bound(F, f, e, depth=0):
+    """Canonical key of the bound B in the loop condition `v < B` that limits expression e (a loop variable, or a call
+    whose every return value is such a variable or B itself); None if unknown."""
+    e = X.strip(e)
+    while e["k"] in ("CXXStaticCastExpr", "CStyleCastExpr", "CXXFunctionalCastExpr", "ImplicitCastExpr") and X.kids(e):
+        e = X.strip(X.kids(e)[-1])
+    if e["k"] == "DeclRefExpr" and e.get("st") in ("local",):
+        for a in f.ancestors(e):
+            if a["k"] == "ForStmt" and a["c"][1] is not None:
+                c = X.strip(a["c"][1])
+                # first conjunct `v < B`
+                while c["k"] == "BinaryOperator" and c["op"] == "&&":
+                    c = X.strip(X.kids(c)[0])
+                if c["k"] == "BinaryOperator" and c["op"] == "<":
+                    l, r = X.kids(c)
+                    if X.strip(l)["k"] == "DeclRefExpr" and X.strip(l).get("d") == e.get("d"):
+                        return X.re_strip(X.key(r, f, X.const_locals(f)))
+        return None
+    if e["k"] in ("CXXMemberCallExpr", "CallExpr") and depth < 2:
+        g = F.funcs.get(e.get("callee"))
+        if g is None:
+            return None
+        bs = set()
+        for r in g.walk():
+            if r["k"] == "ReturnStmt" and X.kids(r):
+                v = X.kids(r)[0]
+                b = upper_bound(F, g, v, depth + 1)
+                if b is None:
+                    b = X.re_strip(X.key(v, g, X.const_locals(g)))   # returning the bound itself
+                bs.add(b)
+        return bs.pop() if len(bs) == 1 else None
+    return None
+
+
+def r6(F, rep):
+    rep.rule("C12-R6", "parallel work items address components in the index space their consumer expects: the value pushed onto "
+                       "variables_active_smp_items (handed to colvar::calc_cvcs(first_cvc, 1) by calc_component_smp) is bounded by "
+                       "cvcs.size() -- a position in the array of ALL components -- like the loop in calc_cvc_values() that starts "
+                       "from it, not by the number of active components")
+    f = F.one("colvarmodule::calc_colvars")
+    pushes = [c for c in X.calls(f) if c["k"] == "CXXMemberCallExpr" and X.callee_name(c) == "push_back" and X.receiver(c) is not None and
+              "variables_active_smp_items" in X.key(X.receiver(c), f)]
+    if not pushes:
+        raise AnalysisBroken("calc_colvars: construction of the SMP work items not found")
+    cons = F.one("colvar::calc_cvc_values")
+    cb = None
+    for l in cons.walk():
+        if l["k"] == "ForStmt" and l["c"][0] is not None and "first_cvc" in X.key(l["c"][0], cons):
+            c = X.strip(l["c"][1])
+            while c["k"] == "BinaryOperator" and c["op"] == "&&":
+                c = X.strip(X.kids(c)[0])
+            if c["k"] == "BinaryOperator" and c["op"] == "<":
+                cb = X.re_strip(X.key(X.kids(c)[1], cons))
+    if cb is None:
+        raise AnalysisBroken("calc_cvc_values: loop starting from first_cvc not found")
+    for p in pushes:
+        b = upper_bound(F, f, X.call_args(p)[0])
+        ok = b is not None and b.split(".")[-1] == cb.split(".")[-1]
+        rep.add("C12-R6", "items|index-space", f.loc(p), "work item value `%s` is bounded by `%s`; the consumer iterates up to `%s`" % (
+            X.text(X.call_args(p)[0], f)[:60], b, cb), ok,
+            detail="with a disabled component in front, two items compute the same component and one is never computed: "
+                   "the threaded value differs from the serial one", func=f.q)
+
+
 def run(F, rep, tier):
     r1(F, rep)
     r2(F, rep)
     r3(F, rep)
     r4(F, rep)
     r5(F, rep)
+    r6(F, rep)
